@@ -17,8 +17,9 @@ META = {
                    "constructed model holding the current parameters and data (same atoms). A stale cache is a term over "
                    "superseded atoms -> sat -> replay.",
     "bounds": {"quick": "all histories of length <= 2 over 13 operations for the exact stub model n in {2,3}, m=2; SGPR rig (6 operations) and "
-                        "variational rigs (whitened / unwhitened strategy, 7 operations: predict, train(), eval(), optimiser step, "
-                        "load_state_dict, prior-mode call, kl_divergence()) to the same length",
+                        "variational rigs (whitened / unwhitened strategy, 8 operations: predict, mean-only predict, train(), eval(), "
+                        "optimiser step, load_state_dict, prior-mode call, kl_divergence()) to the same length; 7 histories that "
+                        "continue on a fantasy model (fast_pred_var, backward through a prediction, second-generation fantasy)",
                "thorough": "all histories of length <= 3 "},
     "outside": ["direct parameter edits in eval mode (excluded by the property)", "histories longer than the bound",
                 "interpolation (KISS-GP) kernels; variational strategies other than the whitened / unwhitened ones", "rounding"],
